@@ -68,16 +68,18 @@ WholeRecords(r) == Len(r) = 0 \/ (Len(r) >= 49 /\ (Len(r) - 49) % 16 = 0)
 NRecords(r) == IF Len(r) < 49 THEN 0 ELSE (Len(r) - 49) \div 16
 RecordAt(r, n) == Field(r, 45 + 16 * (n - 1), 16)            \* n = 1..NRecords
 EncodeSchedules(head45, recs, sig4) == head45 \o FoldLeft(LAMBDA a, x : a \o x, <<>>, recs) \o sig4
-\* what one listed record means on a host whose zone is z
-RecordMeaning(z, rec) ==
-  LET s == HM(z, Nat31(RecStart4(rec)))
-      e == HM(z, Nat31(RecEnd4(rec)))
+\* what one listed record means on a host whose zone is z (instants and zone rules relative to `base`, see Schedule!Rel)
+RecordMeaningRel(z, rec, base) ==
+  LET s == HM(z, Rel(RecStart4(rec), base))
+      e == HM(z, Rel(RecEnd4(rec), base))
   IN [id |-> Decimal(RecId(rec)),
       recurring |-> RecRecurring(rec),
       days |-> IF RecRecurring(rec) THEN DaysOf(RecMask(rec)) ELSE {},
       start |-> TwoDigits(s[1]) \o <<Colon>> \o TwoDigits(s[2]),
       end |-> TwoDigits(e[1]) \o <<Colon>> \o TwoDigits(e[2]),
       duration |-> DurationText(60 * s[1] + s[2], 60 * e[1] + e[2])]
-\* records the statement covers: even masks (a day set or non-recurring), instants before 2038
-RecordInDomain(rec) == RecMask(rec) % 2 = 0 /\ Fits31(RecStart4(rec)) /\ Fits31(RecEnd4(rec))
+RecordMeaning(z, rec) == RecordMeaningRel(z, rec, <<0, 0>>)
+\* records the statement covers: even masks (a day set or non-recurring), instants TLC can reach from the base
+RecordInDomainRel(rec, base) == RecMask(rec) % 2 = 0 /\ RelFits(RecStart4(rec), base) /\ RelFits(RecEnd4(rec), base)
+RecordInDomain(rec) == RecordInDomainRel(rec, <<0, 0>>)
 =============================================================================
